@@ -9,32 +9,21 @@ namespace vf { namespace c10 {
 void register_unit_families() { register_group_a(); }
 uint64_t random_cases(bool thorough) { return thorough ? 60000 : 1200; }
 
-// ---------------------------------------------------------------- shipped Theta images (written by Java, serial versions 1 and 2)
-static void shipped_theta(const std::string& file) {
-  std::string img, want;
+// ---------------------------------------------------------------- shipped Theta images written by Java: cross-language hashing
+// (their read-outs are compared by the generic shipped-image cases).  The estimation images were produced in Java by update(i),
+// i = 0..8191 (theta_sketch_test.cpp): their entries must be exactly the reference MurmurHash3 hashes (>> 1) below theta.
+static void shipped_theta_java_hashes(const std::string& file) {
+  std::string img;
   const std::string path = repo_root() + "/theta/test/" + file;
   if (!read_file(path, img)) { checked(); fail("shipped|file-missing", path); return; }
-  if (!read_file(verif_root() + "/corpus/shipped/" + file + ".json", want)) { checked(); fail("shipped|readout-missing", file); return; }
-  for (int stream = 0; stream < 2; ++stream) {
-    const std::string P = stream ? "stream" : "bytes";
-    try {
-      const std::string got = readout_theta(read_theta(img, stream != 0, DEFAULT_SEED));
-      const std::string diff = readout_diff(want, got);
-      VF_CHECK(diff.empty(), "shipped|theta|" + P + "|readout-differs-from-recorded", file + ": " + diff);
-    } catch (const std::exception& e) { checked(); fail("shipped|theta|" + P + "|deserialize-threw", file + ": " + e.what()); }
-    count("shipped_" + P + "_path");
-  }
-  // cross-language hashing: the estimation images were produced in Java by update(i), i = 0..8191 (theta_sketch_test.cpp);
-  // their entries must be exactly the reference hashes below theta
-  if (file.find("estimation") != std::string::npos) {
-    const compact_theta_sketch s = read_theta(img, false, DEFAULT_SEED);
-    std::vector<uint64_t> want_e;
-    for (int64_t i = 0; i < 8192; ++i) { const uint64_t h = ref_hash_i64(i, DEFAULT_SEED).h1 >> 1; if (h < s.get_theta64()) want_e.push_back(h); }
-    std::sort(want_e.begin(), want_e.end());
-    VF_CHECK(theta_entries(s) == want_e, "shipped|theta|java-entries-vs-reference-murmur3", file + ": entries=" + std::to_string(s.get_num_retained()) + " reference=" + std::to_string(want_e.size()));
-    count("shipped_java_hash_checked");
-  }
-  sig(img_hash(img));
+  const compact_theta_sketch s = read_theta(img, false, DEFAULT_SEED);
+  std::vector<uint64_t> want_e;
+  for (int64_t i = 0; i < 8192; ++i) { const uint64_t h = ref_hash_i64(i, DEFAULT_SEED).h1 >> 1; if (h < s.get_theta64()) want_e.push_back(h); }
+  std::sort(want_e.begin(), want_e.end());
+  VF_CHECK(theta_entries(s) == want_e, "shipped|theta|java-entries-vs-reference-murmur3", file + ": entries=" + std::to_string(s.get_num_retained()) + " reference=" + std::to_string(want_e.size()));
+  VF_CHECK(s.get_seed_hash() == ref_seed_hash(DEFAULT_SEED), "shipped|theta|java-seed-hash-vs-reference", file);
+  count("shipped_java_hash_checked");
+  sig(mix64(img_hash(img), 7));
 }
 
 // ---------------------------------------------------------------- legacy Theta images synthesised from the documented layouts
@@ -147,9 +136,8 @@ std::vector<Extra>& extras() {
   static bool init = false;
   if (!init) {
     init = true;
-    for (const char* f : {"theta_compact_empty_from_java_v1.sk", "theta_compact_empty_from_java_v2.sk",
-                          "theta_compact_estimation_from_java_v1.sk", "theta_compact_estimation_from_java_v2.sk"})
-      x.push_back(Extra{std::string("shipped ") + f, [f]() { shipped_theta(f); }});
+    for (const char* f : {"theta_compact_estimation_from_java_v1.sk", "theta_compact_estimation_from_java_v2.sk"})
+      x.push_back(Extra{std::string("java hashes ") + f, [f]() { shipped_theta_java_hashes(f); }});
     static const std::vector<LegacyTheta> lt = legacy_theta_images();
     for (size_t i = 0; i < lt.size(); ++i) x.push_back(Extra{"legacy theta " + lt[i].name, [i]() { legacy_theta_case(lt[i]); }});
     for (int rep = 0; rep < 3; ++rep) x.push_back(Extra{"legacy tuple", [rep]() { legacy_tuple_case(rep); }});
